@@ -378,8 +378,26 @@ def r1_unrenderable(ctx, prog):
         parses = M.call_blocks(b3, r"core::str::<impl str>::parse$")
         errs = M.agg_blocks(b3, "error::Error", "InvalidLocale")
         lp = M.loop_of(b3, parses[0]) if parses else None
-        if oks and parses and errs and lp and b3.dominates(lp[0], oks[0]) and not b3.paths_avoiding(errs[0], oks, []):
-            r.inst("TranslationsInfos::parse_inner (C09.B1)", "every locale name is parsed as a LanguageIdentifier before Ok; failure -> InvalidLocale")
+        # the type the names are validated as is the type they are later parsed-and-unwrapped as (get_locales_langids and its closures)
+        def _parsed_types(body_names):
+            out = set()
+            for bn in body_names:
+                bb_ = prog.bodies[bn]
+                for ci in M.call_blocks(bb_, r"core::str::<impl str>::parse$|::from_str$|::try_from_bytes$|::try_from_str$"):
+                    full = (bb_.blocks[ci]["term"]["func"].get("const") or {}).get("fn_full", "")
+                    m_ = re.search(r"parse::<(.+)>$", full) or re.search(r"^<?([\w:]+?)(?: as [^>]+>)?::(?:from_str|try_from_bytes|try_from_str)$", full)
+                    out.add(m_.group(1) if m_ else full)
+            return out
+        validated = _parsed_types([b3.name])
+        users = [n_ for n_ in prog.bodies if root_fn(n_) == "leptos_i18n_build::TranslationsInfos::get_locales_langids"]
+        used = _parsed_types(users)
+        if users and not used:
+            r.viol("R1:get_locales_langids#parse", "get_locales_langids no longer parses the locale names with a call the rule recognises: cannot relate it to the validation in parse_inner", file=b3.file)
+        elif used - validated:
+            r.viol("R1:parse_inner#validated-type", "parse_inner validates the locale names as %s, get_locales_langids parses them as %s and unwraps: a name the validation accepts and the later parse "
+                   "rejects (e.g. one with a -u- extension) panics" % (sorted(validated), sorted(used)), file=b3.file, line=b3.line)
+        elif oks and parses and errs and lp and b3.dominates(lp[0], oks[0]) and not b3.paths_avoiding(errs[0], oks, []):
+            r.inst("TranslationsInfos::parse_inner (C09.B1)", "every locale name is parsed as a LanguageIdentifier before Ok; failure -> InvalidLocale; get_locales_langids unwraps a parse of the same type (%s)" % sorted(used))
         else:
             r.viol("R1:parse_inner#validate-locales", "locale names are not validated as language identifiers before TranslationsInfos is returned: get_locales_langids would panic", file=b3.file, line=b3.line)
     return r
